@@ -1,7 +1,7 @@
 (* C08, part "html": FormatterToHTML as coded (HtmlDefs.v: indent off) against a reader written from HTML 4.01.
    Facts regenerated from /repo: GenHtml.v (entity table, character maps, constants), GenOutopt.v (element table). *)
 From Coq Require Import NArith List Bool.
-Require Import XV.GenOutopt XV.GenHtml XV.HtmlEnt4Defs XV.HtmlDefs XV.HtmlTableModel XV.HtmlSerModel XV.HtmlRefModel XV.HtmlTextModel XV.HtmlAttrModel XV.HtmlElemModel.
+Require Import XV.GenOutopt XV.GenHtml XV.HtmlEnt4Defs XV.HtmlDefs XV.HtmlTableModel XV.HtmlSerModel XV.HtmlRefModel XV.HtmlTextModel XV.HtmlAttrModel XV.HtmlElemModel XV.HtmlUriModel XV.HtmlTagModel XV.HtmlTreeModel.
 Import ListNotations.
 Open Scope N_scope.
 
@@ -141,3 +141,61 @@ Example html_roundtrip_instance :
   html_ok c doc = true /\
   match serialize_html c doc with Some o => (parse_html o = Some (map (norm c) doc)) | None => False end.
 Proof. split; vm_compute; reflexivity. Qed.
+
+(* ---- URL-valued attributes ----------------------------------------------------------------------------------------
+   uri_spec (HtmlDefs) is the definition: units 33..126 as they are except the quote mark (%22), the space as it is, every
+   other code point as the %HH of its UTF-8 bytes, UTF-8 given by arithmetic (utf8_bytes).  The code's shifts and masks are
+   shown equal to it by exhaustive computation over all 65536 units and, for surrogate pairs, over the 1024 values of each
+   half plus linear arithmetic (HtmlUriModel.bytes4_utf8). *)
+Theorem uri_escaping_is_percent_utf8 : forall nm ats an toks c s v, maxc_ok c -> esc_urls c = true -> chars_ok s = true ->
+  run (AttrVal nm ats an v, toks) (write_uri c s) = (AttrVal nm ats an (rev (uri_spec s) ++ v), toks).
+Proof. exact uri_on. Qed.
+Print Assumptions uri_escaping_is_percent_utf8.
+
+Theorem uri_bytes_of_a_pair_are_utf8 : forall hi lo, is_high hi = true -> is_lowsur lo = true -> bytes4 hi lo = utf8_bytes (pair_cp hi lo).
+Proof. exact bytes4_utf8. Qed.
+Print Assumptions uri_bytes_of_a_pair_are_utf8.
+
+(* escapeURLs off: the reader gets the value itself (references for what the encoding lacks, &quot; &amp;) *)
+Theorem uri_unescaped_roundtrip : forall nm ats an toks c s v, maxc_ok c -> esc_urls c = false -> chars_ok s = true ->
+  run (AttrVal nm ats an v, toks) (write_uri c s) = (AttrVal nm ats an (rev s ++ v), toks).
+Proof. intros nm ats an toks c s v Hc. exact (uri_off nm ats an toks c s v Hc eq_refl). Qed.
+Print Assumptions uri_unescaped_roundtrip.
+
+Example uri_escaping_instance :
+  write_uri (mkcfg 127 true true [] [] []) [97; 32; 34; 38; 233; 2048; 55357; 56832] =
+  [97; 32; 37;50;50; 38;97;109;112;59; 37;67;51;37;65;57; 37;69;48;37;65;48;37;56;48; 37;70;48;37;57;70;37;57;56;37;56;48] /\
+  uri_spec [97; 32; 34; 38; 233; 2048; 55357; 56832] =
+  [97; 32; 37;50;50; 38; 37;67;51;37;65;57; 37;69;48;37;65;48;37;56;48; 37;70;48;37;57;70;37;57;56;37;56;48].
+Proof. split; vm_compute; reflexivity. Qed.
+
+(* ---- the ATTREMPTY flags are HTML 4.01's boolean attributes; attribute lists in tag position ---------------------- *)
+Theorem boolean_attribute_flag_is_html4 : forall elem name, attr_is aflag_ATTREMPTY elem name = is_bool4 (map low elem) (map low name).
+Proof. exact bool_flag. Qed.
+Print Assumptions boolean_attribute_flag_is_html4.
+
+Theorem attribute_list_roundtrip : forall c elem, maxc_ok c ->
+  forall attrs, forallb attr_ok attrs = true ->
+  forall ats m, pending (map low elem) ats m ->
+  exists ao, ser_attrs c elem attrs = Some ao /\
+             forall toks, run (m, toks) (ao ++ [62]) = emit_start (map low elem) (rev (map (norm_attr c (map low elem)) attrs) ++ ats) toks.
+Proof. intros c elem Hc. exact (attrs_run c elem Hc (conj eq_refl eq_refl)). Qed.
+Print Assumptions attribute_list_roundtrip.
+
+(* ---- html_roundtrip: every document HTML can represent (html_ok: elements with ASCII names, attributes and text over
+   HTML's character set in well-formed UTF-16, void elements empty, SCRIPT/STYLE holding at most one text without "</",
+   CR or a unit the encoding lacks, no empty or adjacent text nodes, no comments and no processing instructions, no
+   DOCTYPE, the three encodings) is read back, by the HTML 4.01 reader, as norm of itself (names folded, META first in
+   HEAD unless omitted, boolean attributes name = name, URL attributes escaped when escapeURLs is on) *)
+Theorem html_roundtrip : forall c doc, html_ok c doc = true ->
+  exists o, serialize_html c doc = Some o /\ parse_html o = Some (map (norm c) doc).
+Proof. exact (html_roundtrip_all (conj eq_refl eq_refl)). Qed.
+Print Assumptions html_roundtrip.
+
+(* outside the guard: "</" inside SCRIPT ends the element for the reader *)
+Theorem html_roundtrip_refuted :
+  let c := mkcfg 65535 true true [] [] [] in
+  let doc := [HEl [115;99;114;105;112;116] [] [HText [97; 60; 47; 98]]] in
+  html_ok c doc = false /\
+  match serialize_html c doc with Some o => parse_html o <> Some (map (norm c) doc) | None => True end.
+Proof. split; [vm_compute; reflexivity|]. vm_compute. discriminate. Qed.
